@@ -90,6 +90,25 @@ def plan(tier, seed):
             inner = [o, L(x), L(y)]
             trees += [['neg', inner], ['k*', 'int3', inner], ['*k', 'float.5', inner], ['/k', 'jnp0d', inner],
                       [o, ['k*', 'neg2', L(x)], ['k*', 'npf32', L(y)]], [o, ['neg', L(x)], ['/k', 'np0d', L(y)]]]
+    small = ['P', 'Q', 'D', 'K']
+    for x, y, z, w in itertools.product(small, repeat=4):
+        for o, o1, o2 in itertools.product(BIN, repeat=3):
+            trees.append([o, [o1, L(x), L(y)], [o2, L(z), L(w)]])   # both operands already composite (sum + sum, product - sum, ...)
+    for n in (5, 6, 7, 9):   # long left- and right-associated sums and products
+        seq = [L(['P', 'Q', 'D', 'K', 'PpQ', 'Di', 'I', 'Km', 'S'][i % 9]) for i in range(n)]
+        for o in ('+', '@', '-'):
+            left = seq[0]
+            for e in seq[1:]:
+                left = [o, left, e]
+            right = seq[-1]
+            for e in reversed(seq[:-1]):
+                right = [o, e, right]
+            trees += [left, right]
+    stokes_core = ['R', 'Rt', 'H', 'Is']
+    for x, y, z in itertools.product(stokes_core, repeat=3):
+        for o1, o2 in itertools.product(BIN, repeat=2):
+            trees.append([o2, [o1, L(x), L(y)], L(z)])
+            trees.append([o1, L(x), [o2, L(y), L(z)]])
     sing = []
     sl = ['Dz', 'Dzi', 'P', 'D', 'K', 'I']
     for x, y in itertools.product(sl, repeat=2):
